@@ -45,8 +45,16 @@ func runC01Race(c *Ctx) {
 			continue
 		}
 		rng := c.Rng(idx)
-		sc := &c01RaceScenario{}
 		dir := filepath.Join(c.Work, fmt.Sprintf("c01r-%d", idx))
+		if i%3 == 2 {
+			cs := &c01CrashScenario{}
+			c.Guard(idx, cs, func() {
+				bubble(c.T, func() { c01CrashRun(c, "C01", idx, rng, cs, dir) })
+			})
+			os.RemoveAll(dir)
+			continue
+		}
+		sc := &c01RaceScenario{}
 		c.Guard(idx, sc, func() {
 			bubble(c.T, func() { c01RaceRun(c, idx, rng, sc, dir) })
 		})
@@ -232,4 +240,191 @@ func c01RaceRun(c *Ctx, idx int, rng *rand.Rand, sc *c01RaceScenario, dir string
 		res.NonTrivial(fmt.Sprintf("race/%d/%d/%d/%d/%s/%s%s/%v", sc.Size1, sc.Size2, sc.Parts1, sc.Parts2, sc.Corrupt, sc.StallOp, sc.StallSfx, sc.Held))
 	}
 	res.Sample(sc)
+}
+
+// ---- version crash family: version 1 validated and held for its predecessor;
+// version 2 (intact or damaged in transit) is sent completely; the receiver is
+// crashed before the k-th mutating file-system operation counted from the start of
+// version 2's transmission (create/truncate of the part file, companion writes and
+// renames, .part->.full, .full->.wait, ...), or restarted after version 2 has gone
+// through validation; then Recover, the predecessor arrives, the sender re-sends
+// version 2 if it is told 'failed' / 'not found'.  Same oracle as the races.
+
+type c01CrashScenario struct {
+	Size1, Size2 int64
+	Parts1       int    `json:"parts_v1"`
+	Parts2       int    `json:"parts_v2"`
+	CorruptV2    bool   `json:"v2_damaged_in_transit"`
+	CrashAt      int    `json:"crash_before_kth_mutating_op_of_v2,omitempty"` // 0: no crash, plain restart afterwards
+	CrashedAt    string `json:"crashed_at,omitempty"`
+	StatusAfter  int    `json:"status_after_recovery"`
+	Resent       bool   `json:"v2_resent"`
+}
+
+func c01CrashRun(c *Ctx, prop string, idx int, rng *rand.Rand, sc *c01CrashScenario, dir string) {
+	res := c.Res
+	res.Eval()
+	viol := func(clause, fp, detail string) {
+		res.Violate(Violation{Clause: clause, Fingerprint: prop + "/" + fp, Detail: detail, Scenario: sc, Index: idx})
+	}
+	rs := newRecvSide(dir, false)
+	defer rs.close()
+	name, pred := "r/f.dat", "r/pred.dat"
+	sc.Size1 = int64(1 + rng.Intn(3000))
+	sc.Size2 = sc.Size1
+	if rng.Intn(2) == 0 {
+		sc.Size2 = int64(1 + rng.Intn(3000))
+	}
+	v1, v2 := randBytes(rng, sc.Size1), randBytes(rng, sc.Size2)
+	h1, h2 := md5hex(v1), md5hex(v2)
+	sc.Parts1, sc.Parts2 = 1+rng.Intn(3), 1+rng.Intn(3)
+	sc.CorruptV2 = rng.Intn(2) == 0
+	if rng.Intn(5) != 0 {
+		sc.CrashAt = 1 + rng.Intn(16)
+	}
+	ftime := time.Now().Add(-time.Hour)
+	ftime2 := ftime
+	if rng.Intn(3) == 0 {
+		ftime2 = ftime.Add(-time.Duration(1+rng.Intn(50)) * time.Minute) // an older copy put back
+	}
+	tile := func(size int64, n int) []iv {
+		step := size / int64(n)
+		if step == 0 {
+			return []iv{{0, size}}
+		}
+		var out []iv
+		b := int64(0)
+		for k := 0; k < n; k++ {
+			e := b + step
+			if k == n-1 {
+				e = size
+			}
+			out = append(out, iv{b, e})
+			b = e
+		}
+		return out
+	}
+	// send returns false when the receiver instance died under it
+	send := func(data, fed []byte, hash string, parts int, ft time.Time) bool {
+		for _, t := range tile(int64(len(data)), parts) {
+			d := &desc{Name: name, Prev: pred, Hash: hash, Size: int64(len(data)), Time: ft, Beg: t.b, End: t.e, Send: int64(len(data))}
+			_, died := serverCall(rs, func() error {
+				rs.Stage.Prepare([]sts.Binned{d})
+				return rs.Stage.Receive(d.partial("src"), &chunkyReader{data: fed[t.b:t.e], rng: rng, stop: -1})
+			})
+			if died {
+				return false
+			}
+		}
+		return true
+	}
+	settle := func() {
+		synctest.Wait()
+		time.Sleep(15 * time.Second)
+		synctest.Wait()
+	}
+	send(v1, v1, h1, sc.Parts1, ftime)
+	settle()
+	if _, err := os.Stat(filepath.Join(rs.StageDir, name+".wait")); err != nil {
+		res.Inconc("version 1 is not held as .wait")
+		return
+	}
+	var before []delivered
+	// version 2, with a crash point
+	var muts atomic.Int64
+	dom := rs.Dom
+	r0 := rs
+	if sc.CrashAt > 0 {
+		dom.Before = func(ev *vfs.Event) error {
+			if ev.Mut && int(muts.Add(1)) == sc.CrashAt {
+				sc.CrashedAt = ev.Op + " " + filepath.Base(ev.Path)
+				r0.crash()
+			}
+			return nil
+		}
+	}
+	fed2 := v2
+	if sc.CorruptV2 {
+		fed2 = append([]byte{}, v2...)
+		fed2[rng.Intn(len(fed2))] ^= 0x3c
+	}
+	send(v2, fed2, h2, sc.Parts2, ftime2)
+	settle()
+	dom.Before = nil
+	before = append(before, rs.Disp.Events()...)
+	rs.restamp()
+	rs.reboot(false)
+	rs.Stage.Recover()
+	settle()
+	// the predecessor arrives: whatever is held is released
+	pd := []byte("predecessor-content")
+	dp := &desc{Name: pred, Hash: md5hex(pd), Size: int64(len(pd)), Time: ftime, Beg: 0, End: int64(len(pd)), Send: int64(len(pd))}
+	rs.Stage.Prepare([]sts.Binned{dp})
+	_ = rs.Stage.Receive(dp.partial("src"), &chunkyReader{data: pd, rng: rng, stop: -1})
+	settle()
+	sc.StatusAfter = rs.Stage.GetFileStatus(name, ftime2)
+	if sc.StatusAfter == sts.ConfirmFailed || sc.StatusAfter == sts.ConfirmNone {
+		sc.Resent = true
+		send(v2, v2, h2, sc.Parts2, ftime2)
+		settle()
+	}
+	// ---- oracle
+	logged := map[string]bool{}
+	rs.Log.inner.Parse(func(n, renamed, hash string, size int64, t time.Time) bool {
+		logged[n+"|"+hash] = true
+		return false
+	}, time.Now().Add(-48*time.Hour), time.Now().Add(time.Hour))
+	where := fmt.Sprintf("v2 damaged=%v, crash %d (%s), status after recovery %d", sc.CorruptV2, sc.CrashAt, sc.CrashedAt, sc.StatusAfter)
+	check := func(what, m string) {
+		if m != h1 && m != h2 {
+			viol("final-is-source-version", "crash-final-not-a-version", fmt.Sprintf("%s: %s holds content (md5 %s) that is neither version (%s)", what, name, m, where))
+			return
+		}
+		if !logged[name+"|"+m] {
+			viol("hash-logged", "crash-delivered-under-other-hash", fmt.Sprintf("%s: %s holds the version with md5 %s but the receive log has no record (%s, that hash) (%s)", what, name, m, name, where))
+		}
+	}
+	if b, err := os.ReadFile(filepath.Join(rs.FinalDir, name)); err == nil {
+		check("final directory", md5hex(b))
+	}
+	for _, d := range append(before, rs.Disp.Events()...) {
+		if d.Rel == name {
+			check(fmt.Sprintf("delivery event #%d", d.Seq), d.MD5)
+		}
+	}
+	// a positive answer for the name needs a validated copy of SOME version that is logged under its own hash
+	if st := rs.Stage.GetFileStatus(name, ftime2); st == sts.ConfirmPassed {
+		b, err := os.ReadFile(filepath.Join(rs.FinalDir, name))
+		if err != nil {
+			viol("hash-logged", "crash-passed-without-final-copy", fmt.Sprintf("the poll answers 'passed' for %s but the final directory has no such file (%s)", name, where))
+		} else if sc.Resent && md5hex(b) != h2 {
+			viol("final-is-source-version", "crash-resent-version-not-delivered", fmt.Sprintf("version 2 was sent again intact and the poll answers 'passed', but the final directory holds md5 %s (%s)", md5hex(b), where))
+		}
+	}
+	res.Count("version_crash_histories", 1)
+	if sc.CrashedAt != "" {
+		res.Count("version_crash_points_hit", 1)
+		res.NonTrivial(fmt.Sprintf("vcrash/%d/%d/%d/%d/%v/%d/%s", sc.Size1, sc.Size2, sc.Parts1, sc.Parts2, sc.CorruptV2, sc.CrashAt, sc.CrashedAt))
+	} else {
+		res.NonTrivial(fmt.Sprintf("vrestart/%d/%d/%d/%d/%v", sc.Size1, sc.Size2, sc.Parts1, sc.Parts2, sc.CorruptV2))
+	}
+	res.Sample(sc)
+}
+
+// runVersionCrash: the version crash family on its own (C06 runs it next to the crash enumeration)
+func runVersionCrash(c *Ctx, prop string) {
+	n := c.N(150, 3000)
+	for i := 0; i < n; i++ {
+		idx := 7_000_000 + i
+		if !c.Mine(idx) {
+			continue
+		}
+		rng := c.Rng(idx)
+		dir := filepath.Join(c.Work, fmt.Sprintf("vcr-%d", idx))
+		cs := &c01CrashScenario{}
+		c.Guard(idx, cs, func() {
+			bubble(c.T, func() { c01CrashRun(c, prop, idx, rng, cs, dir) })
+		})
+		os.RemoveAll(dir)
+	}
 }
